@@ -132,7 +132,7 @@ def c08(k, ctx):
     ctx.extra["panics"] = sum(1 for r in recs if r["o"] != "ok")
     ctx.samples = [k.sample_case(recs, 40), k.sample_case(recs, recs[-1]["i"] - 50)]
     ctx.assumptions = ["TLC 1.8 + Json/IOUtils", "harness tokeniser: lines split on \\n, tokens on Unicode whitespace, digit strings -> integers (as the format defines)",
-                       "declared dimensions above 20000 are not fed to the parser (property: moderate declared dimensions)"]
+                       "texts whose FIRST line declares a dimension above 20000 are not fed to the parser (property: moderate declared dimensions); texts with a larger number anywhere else (weights, indices, up to 2^64) are parsed in a child process under a 3 GiB address-space limit - a process that dies there is a violation, not a crash of the harness"]
 
 
 def c01(k, ctx):
